@@ -27,7 +27,13 @@ META = dict(
                  "comparison at 1e-7 relative (solver-limited), scripted covariances at 1e-8",
                  "posterior covariance condition number <= 1e6 (else skipped)",
                  "a JAX draw whose CG reports info != 0 is skipped",
-                 "classic WienerFilterCurvature with diagonal noise only (needs N.inverse.draw_sample)"],
+                 "classic WienerFilterCurvature with diagonal noise only (needs N.inverse.draw_sample)",
+                 "classic minimisers are judged only when the gradient norm NIFTy itself reports at the "
+                 "returned point is below 1e-9 (GradientNormController also reports CONVERGED on its "
+                 "iteration limit); otherwise the case is skipped",
+                 "real-valued models only: the DESIGN mutant 'forward_lin_T without conjugation' is "
+                 "equivalent on them",
+                 "JAX cases are not started with < 30 s of budget left (counted as skipped)"],
     need=["wf_signal_mean", "wf_data_mean", "wf_cov", "curvature_mean", "curvature_cov",
           "cl_map_mean", "cl_mgvi_mean", "cl_mgvi_cov", "re_map_mean", "re_mgvi_mean", "re_mgvi_cov"],
     quick=dict(cases=700, workers=8, budget_s=75),
@@ -83,7 +89,7 @@ def _case(ck, i):
     mir = vh.Mirror(m)
     R, D, mean, mean_d = mir.posterior()
     mult_id = (R.shape[0] == R.shape[1] and np.allclose(R, R[0, 0] * np.eye(R.shape[0])))
-    nontriv = mir.n >= 2 and not mult_id
+    nontriv = mir.n >= 2 and not mult_id and bool(np.any(R != 0))
     cond = np.linalg.cond(D)
     if cond > 1e6 or mir.cond_N > 1e6:
         ck.note(dict(model=vh.model_brief(m), fam=fam), nontrivial=False, klass=fam)
